@@ -51,7 +51,7 @@ from __future__ import annotations
 
 import ast
 from fractions import Fraction
-from typing import Dict, List, Optional, Tuple
+from typing import Dict, List, Optional, Sequence, Tuple
 
 from engines import asyncfacts as af
 from engines import linform
@@ -231,6 +231,32 @@ def discover(ctx: Ctx, m: pf.Module, T: dict) -> Shape:
     S.free_is_param = S.free in params
     S.free_defs = before.get(S.free, [])
     ctx.need(S.free in in_loop, f'{q}: `{S.free}` is never updated in the loop')
+    # shortcut exits: top-level `if` statements between the record loop and the allocation loop (analysed by R8); every other
+    # top-level statement that is not one of the recognised parts must not touch the quantities the analysis speaks about
+    S.shortcuts = [st for st in body[body.index(S.rec) + 1:body.index(S.loop)] if isinstance(st, ast.If)]
+    relevant = {S.free, S.mark, S.result, H.name} | set(sets) | set(S.dicts)
+    for st in body:
+        if st is S.rec or st is H or st is S.loop or st in S.shortcuts or isinstance(st, ast.Return):
+            continue
+        if isinstance(st, (ast.For, ast.AsyncFor)) and any(isinstance(c, ast.Call) and pf.dotted(c.func) == H.name for c in ast.walk(st)):
+            continue   # the final loop (judged by R5)
+        nt = _name_target(st)
+        if nt is not None:
+            if nt[0] == S.mark:
+                ctx.need(body.index(st) < body.index(S.loop), f'{q}: `{pf.nsrc(st)[:70]}` rebinds the water level after the allocation loop (not analysed)')
+            if nt[0] == S.free:
+                ctx.need(body.index(st) < body.index(S.rec), f'{q}: `{pf.nsrc(st)[:70]}` rebinds the free amount after the records are read (not analysed)')
+            if nt[0] in sets or nt[0] == H.name:
+                ctx.need(sum(1 for x in body if (_name_target(x) or ('',))[0] == nt[0]) == 1, f'{q}: `{nt[0]}` is bound more than once')
+            continue
+        if isinstance(st, ast.Expr) and (isinstance(st.value, ast.Constant) or (isinstance(st.value, ast.Call) and (pf.dotted(st.value.func) or '').startswith('log.'))):
+            continue
+        for n in ast.walk(st):
+            touched = (isinstance(n, ast.Name) and n.id in relevant and isinstance(n.ctx, (ast.Store, ast.Del))) \
+                or (isinstance(n, ast.Subscript) and isinstance(n.ctx, (ast.Store, ast.Del))) \
+                or (isinstance(n, ast.Call) and isinstance(n.func, ast.Attribute) and isinstance(n.func.value, ast.Name) and n.func.value.id in relevant) \
+                or isinstance(n, (ast.Return, ast.Await, ast.Yield, ast.YieldFrom))
+            ctx.need(not touched, f'{q}: top-level statement `{pf.nsrc(st)[:70]}` at line {st.lineno} touches the allocation state outside the recognised parts (not analysed)')
     return S
 
 
@@ -799,7 +825,8 @@ def check_after(ctx: Ctx, rep: Rep, T: dict, S: Shape) -> None:
     rep.role('R5', role)
     for n in ast.walk(S.fn):
         if isinstance(n, ast.Subscript) and isinstance(n.ctx, (ast.Store, ast.Del)) and isinstance(n.slice, ast.Constant) and n.slice.value == S.alloc_field:
-            ctx.need(_inside(n, [H]) or _inside(n, S.rec.body), f'{q}: `{pf.nsrc(n)}` at line {n.lineno} writes the allocation outside the helper (not analysed)')
+            ctx.need(_inside(n, [H]) or _inside(n, S.rec.body) or _inside(n, S.shortcuts),
+                     f'{q}: `{pf.nsrc(n)}` at line {n.lineno} writes the allocation outside the helper (not analysed)')
     # the result
     role = 'every record is returned'
     rep.role('R5', role)
@@ -816,7 +843,7 @@ def check_after(ctx: Ctx, rep: Rep, T: dict, S: Shape) -> None:
             raise AnalysisError(f'{q}: `{pf.nsrc(n)}` mutates the result (not analysed)')
         if isinstance(n, ast.Subscript) and isinstance(n.value, ast.Name) and n.value.id == S.result and isinstance(n.ctx, ast.Del):
             raise AnalysisError(f'{q}: a record is deleted from the result (not analysed)')
-    rets = [n for n in pf.walk_shallow(S.fn) if isinstance(n, ast.Return)]
+    rets = [n for n in pf.walk_shallow(S.fn) if isinstance(n, ast.Return) and not _inside(n, S.shortcuts)]     # the shortcuts' returns: R8
     ctx.need(len(rets) == 1 and rets[0] is body[-1] and isinstance(rets[0].value, ast.Name) and rets[0].value.id == S.result,
              f'{q}: the function does not end with a single `return {S.result}`')
 
@@ -889,6 +916,558 @@ def check_uses(ctx: Ctx, rep: Rep, m: pf.Module, T: dict, S: Shape) -> None:
 
 
 # ======================================================================================
+# R8: shortcut exits (fast paths) before the allocation loop
+# ======================================================================================
+#
+# A top-level `if COND: ...; return result` between the record loop and the allocation loop replaces the water filling for the
+# inputs COND selects.  It is compared with the closed forms of the water-filling allocation over a FINITE ABSTRACT domain; nothing
+# is run on numbers.  A scenario fixes
+#     nW, nZ in {0, 1, 2+}     how many users have ready > 0 (class W) / ready == 0 (class Z)
+#     a total preorder of the atoms  0, F (free amount), R (ready demand of one representative W user), S (sum of all ready demands)
+#     consistent with  R > 0,  S = 0 (nW = 0) | S = R (nW = 1) | S > R (nW >= 2)            (45 scenarios)
+# Every expression of the shortcut is evaluated to one of the atoms by its rank in the preorder (min / max / comparisons / len() of a
+# filtered user list / sum() of the ready demands); the allocation stored for a W user and for a Z user is then compared with
+#     0                 if F <= 0                      (the loop guard keeps the loop out: everybody stays at 0)
+#     R  (resp. 0)      if 0 < F and S <= F            (all demand fits: everybody is finalised at its total)
+#     min(R, F)         if exactly one user has demand (it is the only one ever allocating)
+# and, where no closed form exists (several competing users, S > F > 0), with the bounds 0 <= allocation <= R and "not all zero".
+# Shapes outside this fragment are declined.
+
+
+class _Decline(Exception):
+    pass
+
+
+class Scn:
+    def __init__(self, nW: int, nZ: int, rank: Dict[str, int], chain: List[List[str]]):
+        self.nW, self.nZ, self.rank, self.chain = nW, nZ, rank, chain
+
+    def values(self) -> Dict[str, int]:
+        z = self.rank['0']
+        return {a: 2000 * (r - z) for a, r in self.rank.items()}
+
+    def witness(self, unit: str) -> str:
+        v = self.values()
+        users = []
+        if self.nW >= 1:
+            users.append(f"a: running 1000 ready {v['R']}")
+        if self.nW >= 2:
+            users.append(f"b: running 0 ready {v['S'] - v['R']}")
+        if self.nZ >= 1:
+            users.append('z: running 3000 ready 0')
+        if self.nZ >= 2:
+            users.append('y: running 500 ready 0')
+        return f"users {{{', '.join(users)}}} and {v['F']} {unit} free"
+
+
+def shortcut_scenarios() -> List[Scn]:
+    out = []
+    for nW in (0, 1, 2):
+        base = [['0', 'S']] if nW == 0 else ([['0'], ['R', 'S']] if nW == 1 else [['0'], ['R'], ['S']])
+        for nZ in (0, 1, 2):
+            for pos in range(2 * len(base) + 1):
+                chain = [list(c) for c in base]
+                if pos % 2 == 1:
+                    chain[pos // 2].append('F')
+                else:
+                    chain.insert(pos // 2, ['F'])
+                out.append(Scn(nW, nZ, {a: i for i, c in enumerate(chain) for a in c}, chain))
+    return out
+
+
+class VNum:
+    def __init__(self, atom: str):
+        self.atom = atom
+
+
+class VConst:
+    def __init__(self, v):
+        self.v = v
+
+
+class VCount:
+    def __init__(self, n: int):
+        self.n = n          # 0, 1, 2 (= two or more)
+
+
+class VUsers:
+    """a (filtered) collection of the users; elt: what one element is ('user' | 'record' | 'pair')"""
+
+    def __init__(self, classes, elt: str):
+        self.classes, self.elt = tuple(classes), elt
+
+
+class VUser:
+    def __init__(self, cls: str):
+        self.cls = cls
+
+
+class VRecord:
+    def __init__(self, cls: str):
+        self.cls = cls
+
+
+class VPair:
+    def __init__(self, cls: str):
+        self.cls = cls
+
+
+class VLin:
+    def __init__(self, lin: linform.Lin):
+        self.lin = lin
+
+
+class VResult:
+    pass
+
+
+def _cmp_op(op: ast.cmpop, a, b) -> bool:
+    return {ast.Lt: a < b, ast.LtE: a <= b, ast.Gt: a > b, ast.GtE: a >= b, ast.Eq: a == b, ast.NotEq: a != b}[type(op)]
+
+
+class ShortcutEval:
+    """Evaluates the statements of one shortcut under one scenario (see the section comment)."""
+
+    def __init__(self, T: dict, S: Shape, lins: Dict[str, linform.Lin], scn: Scn, env: Dict[str, ast.AST], free_atom: str):
+        self.T, self.S, self.lins, self.scn = T, S, lins, scn
+        self.env: Dict[str, object] = dict(env)     # name -> ast expression (lazy) | value
+        self.free_atom = free_atom
+        self.writes: Dict[str, str] = {}
+        self.free_now = free_atom
+        self.no_free = False       # True while evaluating a filter: the user classes must not depend on F / S
+
+    # ---- ranks ---------------------------------------------------------------------------
+    def rank(self, atom: str, cls: Optional[str]) -> int:
+        if self.no_free and atom in ('F', 'S'):
+            raise _Decline('a user filter depends on the free amount or on the total demand')
+        if atom == 'R':
+            if cls is None:
+                raise _Decline('a per-user quantity is read outside a loop over the users')
+            if cls == 'W' and 'R' not in self.scn.rank:
+                # no W user exists in this scenario; only a filter asks (R > 0 is all it may use: F and S are refused there)
+                if not self.no_free:
+                    raise _Decline('internal: demand of a user that does not exist')
+                return self.scn.rank['0'] + 0.5
+            return self.scn.rank['0'] if cls == 'Z' else self.scn.rank['R']
+        return self.scn.rank[atom]
+
+    def count(self, cls: str) -> int:
+        return self.scn.nW if cls == 'W' else self.scn.nZ
+
+    def canon(self, atom: str, cls: Optional[str]) -> str:
+        """the atom as seen from outside the user loop (R of a Z user is 0)"""
+        return '0' if (atom == 'R' and cls == 'Z') else atom
+
+    # ---- expressions ---------------------------------------------------------------------
+    def num(self, v, cls) -> str:
+        if isinstance(v, VNum):
+            return v.atom
+        if isinstance(v, VConst) and v.v == 0:
+            return '0'
+        if isinstance(v, VLin):
+            rv = self.S.rv
+            ready = linform.Lin({f"{rv}['{self.T['ready']}']": 1})
+            if v.lin == ready:
+                return 'R'
+            if v.lin == linform.Lin():
+                return '0'
+            raise _Decline(f'`{v.lin}` is not the ready demand')
+        raise _Decline('a value is not one of 0 / free / ready / total demand')
+
+    def ev(self, e: ast.AST, cls: Optional[str]):
+        S, T = self.S, self.T
+        if isinstance(e, ast.Constant):
+            if isinstance(e.value, bool) or not isinstance(e.value, int):
+                raise _Decline(f'literal {e.value!r}')
+            return VConst(e.value)
+        if isinstance(e, ast.UnaryOp) and isinstance(e.op, ast.USub) and isinstance(e.operand, ast.Constant) and isinstance(e.operand.value, int):
+            return VConst(-e.operand.value)
+        if isinstance(e, ast.Name):
+            if e.id in self.env:
+                v = self.env[e.id]
+                return self.ev(v, cls) if isinstance(v, ast.AST) else v
+            if e.id == S.free:
+                return VNum(self.free_now)
+            if e.id == S.result:
+                return VResult()
+            if e.id == S.P:
+                return VUsers(('W', 'Z'), 'user')     # after the record loop every user is pending (R1)
+            if e.id == S.A:
+                return VUsers((), 'user')
+            raise _Decline(f'name `{e.id}`')
+        if isinstance(e, ast.Subscript):
+            base = self.ev(e.value, cls)
+            if isinstance(base, VRecord) and isinstance(e.slice, ast.Constant):
+                if e.slice.value == T['ready']:
+                    return VLin(linform.Lin({f"{S.rv}['{T['ready']}']": 1})) if base.cls == cls else self._foreign()
+                if e.slice.value in T['held'] and base.cls == cls:
+                    return VLin(linform.Lin({f"{S.rv}['{e.slice.value}']": 1}))
+                raise _Decline(f'field {e.slice.value!r} of a record')
+            if isinstance(base, VResult):
+                k = self.ev(e.slice, cls)
+                if isinstance(k, VUser):
+                    return VRecord(k.cls)
+                raise _Decline(f'`{pf.nsrc(e)}`')
+            if isinstance(e.value, ast.Name) and e.value.id in self.lins and e.value.id not in self.env:
+                k = self.ev(e.slice, cls)
+                if isinstance(k, VUser) and k.cls == cls:
+                    return VLin(self.lins[e.value.id])
+                raise _Decline(f'`{pf.nsrc(e)}`')
+            if isinstance(base, VPair) and isinstance(e.slice, ast.Constant) and e.slice.value in (0, 1):
+                return VUser(base.cls) if e.slice.value == 0 else VRecord(base.cls)
+            if isinstance(base, VUsers) and isinstance(e.slice, ast.Constant) and e.slice.value in (0, -1):
+                live = [c for c in base.classes if self.count(c) >= 1]
+                if len(live) != 1:
+                    raise _Decline(f'`{pf.nsrc(e)}`: the element taken is not determined (or the list may be empty)')
+                return {'user': VUser, 'record': VRecord, 'pair': VPair}[base.elt](live[0])
+            raise _Decline(f'`{pf.nsrc(e)}`')
+        if isinstance(e, ast.BinOp) and isinstance(e.op, (ast.Add, ast.Sub)):
+            a, b = self.ev(e.left, cls), self.ev(e.right, cls)
+            if isinstance(a, VLin) and isinstance(b, VLin):
+                return VLin(a.lin + b.lin if isinstance(e.op, ast.Add) else a.lin - b.lin)
+            raise _Decline(f'arithmetic `{pf.nsrc(e)}`')
+        if isinstance(e, ast.IfExp):
+            return self.ev(e.body if self.truth(e.test, cls) else e.orelse, cls)
+        if isinstance(e, (ast.ListComp, ast.GeneratorExp, ast.SetComp)):
+            return self.comp(e, cls)
+        if isinstance(e, ast.Call):
+            name = pf.dotted(e.func) or ''
+            if isinstance(e.func, ast.Attribute) and e.func.attr in ('items', 'values', 'keys') and not e.args and not e.keywords:
+                b = self.ev(e.func.value, cls)
+                if isinstance(b, VResult):
+                    return VUsers(('W', 'Z'), {'items': 'pair', 'values': 'record', 'keys': 'user'}[e.func.attr])
+                raise _Decline(f'`{pf.nsrc(e)}`')
+            if name in ('list', 'tuple', 'sorted', 'set', 'iter') and len(e.args) == 1:
+                b = self.ev(e.args[0], cls)
+                if isinstance(b, VResult):
+                    return VUsers(('W', 'Z'), 'user')
+                if isinstance(b, VUsers):
+                    return b
+                raise _Decline(f'`{pf.nsrc(e)}`')
+            if name == 'len' and len(e.args) == 1 and not e.keywords:
+                b = self.ev(e.args[0], cls)
+                if isinstance(b, VResult):
+                    b = VUsers(('W', 'Z'), 'user')
+                if isinstance(b, VUsers):
+                    return VCount(min(2, sum(self.count(c) for c in b.classes)))
+                raise _Decline(f'`{pf.nsrc(e)}`')
+            if name in ('int', 'round') and len(e.args) == 1 and not e.keywords:
+                return VNum(self.num(self.ev(e.args[0], cls), cls))
+            if name in ('min', 'max') and not e.keywords and (len(e.args) >= 2 or (len(e.args) == 1 and isinstance(e.args[0], (ast.List, ast.Tuple)))):
+                args = e.args if len(e.args) >= 2 else e.args[0].elts
+                atoms = [self.num(self.ev(a, cls), cls) for a in args]
+                pick = (min if name == 'min' else max)(atoms, key=lambda a: self.rank(a, cls))
+                return VNum(self.canon(pick, cls))
+            if name == 'sum' and len(e.args) == 1 and not e.keywords and isinstance(e.args[0], (ast.GeneratorExp, ast.ListComp)):
+                return self.total(e.args[0], cls)
+            raise _Decline(f'call `{pf.nsrc(e)[:60]}`')
+        raise _Decline(f'expression `{pf.nsrc(e)[:60]}`')
+
+    def _foreign(self):
+        raise _Decline('a record of another user is read inside a loop')
+
+    def _bind(self, tgt: ast.AST, users: VUsers, c: str) -> Dict[str, object]:
+        if isinstance(tgt, ast.Name):
+            return {tgt.id: {'user': VUser, 'record': VRecord, 'pair': VPair}[users.elt](c)}
+        if isinstance(tgt, ast.Tuple) and len(tgt.elts) == 2 and all(isinstance(x, ast.Name) for x in tgt.elts) and users.elt == 'pair':
+            return {tgt.elts[0].id: VUser(c), tgt.elts[1].id: VRecord(c)}
+        raise _Decline(f'loop target `{pf.nsrc(tgt)}`')
+
+    def _gen(self, g: ast.AST):
+        if len(g.generators) != 1 or g.generators[0].is_async:
+            raise _Decline(f'`{pf.nsrc(g)[:60]}`')
+        gen = g.generators[0]
+        users = self.ev(gen.iter, None)
+        if isinstance(users, VResult):
+            users = VUsers(('W', 'Z'), 'user')
+        if not isinstance(users, VUsers):
+            raise _Decline(f'`{pf.nsrc(gen.iter)}` is not a collection of the users')
+        kept = []
+        for c in users.classes:
+            saved = dict(self.env)
+            self.env.update(self._bind(gen.target, users, c))
+            self.no_free = True
+            try:
+                ok = all(self.truth(cond, c) for cond in gen.ifs)
+            finally:
+                self.no_free = False
+            if ok:
+                kept.append((c, dict(self.env)))
+            self.env = saved
+        return users, kept
+
+    def comp(self, g: ast.AST, cls: Optional[str]) -> VUsers:
+        users, kept = self._gen(g)
+        elt = None
+        for c, env in kept or [(x, None) for x in users.classes]:
+            saved = self.env
+            if env is None:
+                self.env = dict(saved)
+                self.env.update(self._bind(g.generators[0].target, users, c))
+            else:
+                self.env = env
+            try:
+                v = self.ev(g.elt, c)
+            finally:
+                self.env = saved
+            k = 'user' if isinstance(v, VUser) else 'record' if isinstance(v, VRecord) else 'pair' if isinstance(v, VPair) else None
+            if k is None and isinstance(g.elt, ast.Tuple) and len(g.elt.elts) == 2:
+                k = 'pair'
+            if k is None or (elt is not None and elt != k) or getattr(v, 'cls', c) != c:
+                raise _Decline(f'element `{pf.nsrc(g.elt)}` of a comprehension')
+            elt = k
+        return VUsers([c for c, _ in kept], elt or users.elt)
+
+    def total(self, g: ast.AST, cls: Optional[str]) -> VNum:
+        users, kept = self._gen(g)
+        has_w = False
+        for c, env in kept:
+            saved, self.env = self.env, env
+            try:
+                a = self.canon(self.num(self.ev(g.elt, c), c), c)
+            finally:
+                self.env = saved
+            if a == 'R' and c == 'W':
+                has_w = True
+            elif a != '0':
+                raise _Decline(f'`sum({pf.nsrc(g)[:60]})` is not the total ready demand')
+        return VNum('S' if has_w else '0')
+
+    # ---- tests ---------------------------------------------------------------------------
+    def truth(self, t: ast.AST, cls: Optional[str]) -> bool:
+        if isinstance(t, ast.BoolOp):
+            vals = (self.truth(v, cls) for v in t.values)     # lazily: short circuit
+            return all(vals) if isinstance(t.op, ast.And) else any(vals)
+        if isinstance(t, ast.UnaryOp) and isinstance(t.op, ast.Not):
+            return not self.truth(t.operand, cls)
+        if isinstance(t, ast.Compare) and len(t.ops) == 1 and type(t.ops[0]) in (ast.Lt, ast.LtE, ast.Gt, ast.GtE, ast.Eq, ast.NotEq):
+            a, b = self.ev(t.left, cls), self.ev(t.comparators[0], cls)
+            op = t.ops[0]
+            if isinstance(a, VConst) and isinstance(b, VCount):
+                a, b, op = b, a, {ast.Lt: ast.Gt(), ast.LtE: ast.GtE(), ast.Gt: ast.Lt(), ast.GtE: ast.LtE(), ast.Eq: ast.Eq(), ast.NotEq: ast.NotEq()}[type(op)]
+            if isinstance(a, VCount) and isinstance(b, VConst):
+                if a.n < 2:
+                    return _cmp_op(op, a.n, b.v)
+                probes = {_cmp_op(op, m, b.v) for m in {2, max(b.v, 2), max(b.v, 2) + 1}}
+                if len(probes) != 1:
+                    raise _Decline(f'`{pf.nsrc(t)}` depends on the exact number of users')
+                return probes.pop()
+            if isinstance(a, VCount) or isinstance(b, VCount):
+                raise _Decline(f'`{pf.nsrc(t)}`')
+            # integers: x < 1 <=> x <= 0, x >= 1 <=> x > 0, x > -1 <=> x >= 0, x <= -1 <=> x < 0
+            if isinstance(b, VConst) and b.v in (1, -1) and not isinstance(a, VConst):
+                tr = {(1, ast.Lt): ast.LtE, (1, ast.GtE): ast.Gt, (-1, ast.Gt): ast.GtE, (-1, ast.LtE): ast.Lt}.get((b.v, type(op)))
+                if tr is None:
+                    raise _Decline(f'`{pf.nsrc(t)}`')
+                op, b = tr(), VConst(0)
+            x, y = self.num(a, cls), self.num(b, cls)
+            return _cmp_op(op, self.rank(x, cls), self.rank(y, cls))
+        v = self.ev(t, cls)
+        if isinstance(v, VUsers):
+            return any(self.count(c) >= 1 for c in v.classes)
+        if isinstance(v, VResult):
+            return self.scn.nW + self.scn.nZ >= 1
+        if isinstance(v, VCount):
+            return v.n >= 1
+        if isinstance(v, (VNum, VLin)) or (isinstance(v, VConst) and v.v == 0):
+            a = self.num(v, cls)
+            return self.rank(a, cls) != self.rank('0', cls)
+        raise _Decline(f'test `{pf.nsrc(t)[:60]}`')
+
+    # ---- statements ----------------------------------------------------------------------
+    def block(self, stmts: Sequence[ast.stmt], cls: Optional[str]) -> str:
+        """'fall' | 'return' | 'continue'"""
+        for st in stmts:
+            r = self.stmt(st, cls)
+            if r != 'fall':
+                return r
+        return 'fall'
+
+    def stmt(self, st: ast.stmt, cls: Optional[str]) -> str:
+        S = self.S
+        if isinstance(st, ast.Pass) or (isinstance(st, ast.Expr) and (isinstance(st.value, ast.Constant) or
+                                                                        (isinstance(st.value, ast.Call) and (pf.dotted(st.value.func) or '').startswith('log.')))):
+            return 'fall'
+        if isinstance(st, ast.Continue) and cls is not None:
+            return 'continue'
+        if isinstance(st, ast.Return):
+            v = st.value
+            resort = isinstance(v, ast.Call) and pf.dotted(v.func) == 'dict' and len(v.args) == 1 and isinstance(v.args[0], ast.Call) and pf.dotted(v.args[0].func) == 'sorted' \
+                and len(v.args[0].args) == 1 and pf.nsrc(v.args[0].args[0]) == f'{S.result}.items()'
+            if not ((isinstance(v, ast.Name) and v.id == S.result) or resort) or cls is not None:
+                raise _Decline(f'`{pf.nsrc(st)[:60]}` does not return all the records')
+            return 'return'
+        nt = _name_target(st)
+        if nt is not None:
+            name, val = nt
+            if name == S.free:
+                if cls is not None:
+                    raise _Decline('the free amount is rebound per user')
+                self.free_now = self.num(self.ev(val, None), None)
+                return 'fall'
+            if name in (S.mark, S.result, S.P, S.A, S.helper.name) or name in S.dicts:
+                raise _Decline(f'`{name}` is rebound in a shortcut')
+            v = self.ev(val, cls)          # evaluated now: the binding is a value, not re-evaluated in another context
+            self.env[name] = v
+            return 'fall'
+        if isinstance(st, ast.Assign) and len(st.targets) == 1 and isinstance(st.targets[0], ast.Tuple) and isinstance(st.value, ast.Tuple) \
+                and len(st.targets[0].elts) == len(st.value.elts) and all(isinstance(x, ast.Name) for x in st.targets[0].elts):
+            vals = [self.ev(x, cls) for x in st.value.elts]
+            for x, v in zip(st.targets[0].elts, vals):
+                if x.id in (S.free, S.mark, S.result, S.P, S.A) or x.id in S.dicts:
+                    raise _Decline(f'`{x.id}` is rebound in a shortcut')
+                self.env[x.id] = v
+            return 'fall'
+        if isinstance(st, ast.Assign) and len(st.targets) == 1 and isinstance(st.targets[0], ast.Subscript):
+            t = st.targets[0]
+            if isinstance(t.slice, ast.Constant) and t.slice.value == S.alloc_field:
+                b = self.ev(t.value, cls)
+                if not isinstance(b, VRecord):
+                    raise _Decline(f'`{pf.nsrc(t)}` is not a field of a user record')
+                a = self.canon(self.num(self.ev(st.value, b.cls), b.cls), b.cls)
+                self.writes[b.cls] = a
+                return 'fall'
+            raise _Decline(f'store `{pf.nsrc(st)[:60]}`')
+        if isinstance(st, ast.If):
+            return self.block(st.body if self.truth(st.test, cls) else st.orelse, cls)
+        if isinstance(st, ast.For) and not st.orelse and cls is None:
+            users = self.ev(st.iter, None)
+            if isinstance(users, VResult):
+                users = VUsers(('W', 'Z'), 'user')
+            if not isinstance(users, VUsers):
+                raise _Decline(f'`{pf.nsrc(st.iter)}` is not a collection of the users')
+            for c in users.classes:
+                if self.count(c) < 1:
+                    continue
+                saved = dict(self.env)
+                self.env.update(self._bind(st.target, users, c))
+                r = self.block(st.body, c)
+                self.env = saved
+                if r == 'return':
+                    raise _Decline('return inside a loop over the users')
+            return 'fall'
+        raise _Decline(f'statement `{pf.nsrc(st)[:60]}`')
+
+
+def _expected(scn: Scn, cls: str) -> Optional[str]:
+    """closed form of the water-filling allocation of a class-`cls` user in this scenario (None: no closed form)"""
+    r = scn.rank
+    if cls == 'Z' or r['F'] <= r['0']:
+        return '0'
+    if r['S'] <= r['F']:
+        return 'R'
+    if scn.nW == 1:
+        return 'F'          # = min(R, F) as S = R > F
+    return None
+
+
+def analyse_shortcut(T: dict, S: Shape, lins: Dict[str, linform.Lin], sc: ast.If, env: Dict[str, ast.AST], free_atom_of) -> Tuple[Optional[str], Optional[str], int]:
+    """(violation message | None, reason the shortcut cannot be decided | None, number of scenarios in which it is taken)"""
+    u = T['unit']
+    undecided: Optional[str] = None
+    taken = 0
+    for scn in shortcut_scenarios():
+        fa = free_atom_of(scn)
+        evl = ShortcutEval(T, S, lins, scn, env, fa)
+        if not evl.truth(sc.test, None):
+            continue
+        taken += 1
+        out = evl.block(sc.body, None)
+        if out != 'return':
+            if evl.writes or scn.rank[evl.free_now] != scn.rank[fa] and not (scn.rank[fa] <= scn.rank['0'] and scn.rank[evl.free_now] == scn.rank['0']):
+                raise _Decline('the shortcut changes the allocation state and falls through to the allocation loop')
+            continue
+        v = scn.values()
+        nothing = True
+        for cls, n in (('W', scn.nW), ('Z', scn.nZ)):
+            if n < 1:
+                continue
+            act = evl.writes.get(cls, '0')        # canonical: never 'R' for a Z user
+            ra = scn.rank[act]
+            nothing = nothing and ra == scn.rank['0']
+            exp = _expected(scn, cls)
+            who = 'a (ready > 0)' if cls == 'W' else 'z (ready == 0)'
+            names = {'0': '0', 'F': 'the free amount', 'R': 'the ready demand', 'S': 'the total ready demand'}
+            wrote = f'stores {names[act]} = {v[act]}' if cls in evl.writes else 'leaves the initial 0'
+            if exp is not None:
+                if ra != scn.rank[exp]:
+                    why = ('the allocation is negative' if ra < scn.rank['0'] else
+                           'the allocation exceeds the ready demand' if ra > (scn.rank['R'] if cls == 'W' else scn.rank['0']) else
+                           'free capacity is withheld although demand allows' if ra < scn.rank[exp] else 'more than the free amount is handed out')
+                    return (f'the shortcut `if {pf.nsrc(sc.test)[:90]}` is taken for {scn.witness(u)} and {wrote} for user {who}; water filling allocates '
+                            f'{names[exp] if exp != "F" else "min(ready, free)"} = {v[exp]}: {why}'), None, taken
+            else:
+                hi = scn.rank['R']
+                if ra < scn.rank['0'] or ra > hi:
+                    why = 'the allocation is negative' if ra < scn.rank['0'] else 'the allocation exceeds the ready demand'
+                    return (f'the shortcut `if {pf.nsrc(sc.test)[:90]}` is taken for {scn.witness(u)} and {wrote} for user {who}: {why}'), None, taken
+                undecided = undecided or f'the shortcut is taken with several competing users and less free than demanded ({scn.witness(u)}): no closed form to compare with'
+        if nothing and scn.nW >= 1 and scn.rank['F'] > scn.rank['0']:
+            return (f'the shortcut `if {pf.nsrc(sc.test)[:90]}` is taken for {scn.witness(u)} and returns with every allocation 0 although {u} are free and a user has '
+                    'ready demand: free capacity is not handed out'), None, taken
+    return None, undecided, taken
+
+
+def check_shortcuts(ctx: Ctx, rep: Rep, T: dict, S: Shape, lins: Dict[str, linform.Lin]) -> None:
+    q = S.q
+    body = S.body
+    # locals a shortcut may refer to: single top-level definitions between the record loop and the allocation loop
+    env: Dict[str, ast.AST] = {}
+    relevant = {S.free, S.mark, S.result, S.helper.name} | set(S.sets) | set(S.dicts)
+    for st in body[body.index(S.rec) + 1:body.index(S.loop)]:
+        nt = _name_target(st)
+        if nt and nt[0] not in relevant:
+            ctx.need(nt[0] not in env, f'{q}: `{nt[0]}` is bound twice before the allocation loop')
+            env[nt[0]] = nt[1]
+    # a parameter re-bound before the records are read: only max(free, 0) / int(free) leave the allocation unchanged
+    rebind = [v for v in S.free_defs] if S.free_is_param else []
+    ctx.need(len(rebind) <= 1, f'{q}: the free amount is re-bound {len(rebind)} times')
+
+    def free_atom_of(scn: Scn) -> str:
+        if not rebind:
+            return 'F'
+        evl = ShortcutEval(T, S, lins, scn, {}, 'F')
+        return evl.num(evl.ev(rebind[0], None), None)
+
+    if rebind:
+        role = f'free amount re-bound to `{pf.nsrc(rebind[0])[:60]}`'
+        try:
+            for scn in shortcut_scenarios():
+                a = free_atom_of(scn)
+                same = scn.rank[a] == scn.rank['F'] or (scn.rank['F'] <= scn.rank['0'] and scn.rank[a] == scn.rank['0'])
+                ctx.need(same, f'{q}: the free amount is re-bound to `{pf.nsrc(rebind[0])[:60]}` before the allocation (a different amount is shared out; not analysed)')
+        except _Decline as e:
+            raise AnalysisError(f'{q}: the free amount is re-bound to `{pf.nsrc(rebind[0])[:60]}` ({e}; not analysed)')
+        rep.role('R8', role, 'equals max(free, 0) / free in every sign scenario')
+    # positive control: the same analysis on two synthetic shortcuts written with this function's names (one wrong, one right)
+    ready, res = T['ready'], S.result
+    cenv = {'_w': ast.parse(f"[u for u, r in {res}.items() if r['{ready}'] > 0]", mode='eval').body}
+    store = f"    for u in _w:\n        {res}[u]['{S.alloc_field}'] = min({res}[u]['{ready}'], {S.free})\n    return {res}"
+    try:
+        bad = analyse_shortcut(T, S, lins, ast.parse(f'if len(_w) <= 1:\n{store}').body[0], cenv, lambda scn: 'F')
+        good = analyse_shortcut(T, S, lins, ast.parse(f'if {S.free} > 0 and len(_w) <= 1:\n{store}').body[0], cenv, lambda scn: 'F')
+    except _Decline as e:
+        raise AnalysisError(f'{q}: R8 positive control not analysable ({e})')
+    ctx.need(bad[0] is not None and 'negative' in bad[0] and good[0] is None and good[1] is None and good[2] > 0, f'{q}: R8 positive control failed ({bad}, {good})')
+    ctx.ok('R8', f'positive-control::{q}::synthetic single-claimant fast path (unguarded: refused, guarded by free > 0: accepted)', nontrivial=False)
+    if not S.shortcuts:
+        rep.role('R8', 'no shortcut exit before the allocation loop', 'every input goes through the water-filling loop')
+        return
+    for sc in S.shortcuts:
+        role = f'shortcut `if {pf.nsrc(sc.test)[:80]}` agrees with water filling'
+        ctx.need(not sc.orelse, f'{q}: shortcut `if {pf.nsrc(sc.test)[:60]}` has an else branch (not analysed)')
+        try:
+            msg, undecided, taken = analyse_shortcut(T, S, lins, sc, env, free_atom_of)
+        except _Decline as e:
+            raise AnalysisError(f'{q}: shortcut `if {pf.nsrc(sc.test)[:60]}` at line {sc.lineno} is outside the analysed fragment ({e})')
+        if msg is not None:
+            rep.bad('R8', role, msg, sc.lineno)
+            continue
+        ctx.need(undecided is None, f'{q}: shortcut `if {pf.nsrc(sc.test)[:60]}` at line {sc.lineno}: {undecided}')
+        rep.role('R8', role, {'scenarios': len(shortcut_scenarios()), 'taken_in': taken})
+
+
+# ======================================================================================
 
 
 def check_target(ctx: Ctx, T: dict) -> None:
@@ -899,6 +1478,7 @@ def check_target(ctx: Ctx, T: dict) -> None:
     rep = Rep(ctx, m, S.q)
     try:
         lins = check_records(ctx, rep, m, T, S)
+        check_shortcuts(ctx, rep, T, S, lins)
         D3 = check_helper(ctx, rep, T, S)
         strict = check_guard(ctx, rep, T, S)
         DP, DA = check_loop(ctx, rep, T, S, strict)
@@ -925,6 +1505,9 @@ def run(ctx: Ctx) -> None:
     ctx.rule('R5', 'loop guard = free > 0 and (pending or allocating); final loop allocates everyone still allocating with the final mark; single writer; all records returned', 8)
     ctx.rule('R6', 'the mark never decreases (mark | level | mark + non-negative increment)', 2)
     ctx.rule('R7', 'use sites: the consumers read the allocation field the function writes; call shapes bind the free amount', 6)
+    ctx.rule('R8', 'no input bypasses the water filling with a different result: a shortcut exit before the allocation loop (fast path / early return) stores, in every '
+                   'scenario of the finite order domain {0, free, ready, total demand} x {no / one / several users with demand}, the closed-form water-filling allocation '
+                   '(0 when free <= 0; ready when everything fits; min(ready, free) for a single claimant), within [0, ready] otherwise', 4)
     ctx.assume('the query returns one row per user (GROUP BY user) with non-negative integer counters (CAST ... AS SIGNED); the free amount is an integer')
     ctx.assume('sortedcontainers.SortedSet(key=f) keeps its elements ordered by f as long as f(x) does not change while x is in the set; [0] is a minimum')
     ctx.assume('the induction over loop iterations (invariant I in the module docstring) and the rounding bounds are argued by hand from the decided step obligations')
